@@ -492,4 +492,83 @@ def rule_j(ctx: Ctx) -> None:
     ctx.explain('C20.j: the `level=` argument of the context constructed by iter_errors is compared with the one of iter_decode for the case of a non-empty path.')
 
 
-RULES = [rule_a, rule_b, rule_c, rule_d, rule_e, rule_f, rule_g, rule_h, rule_i, rule_j]
+def rule_k(ctx: Ctx) -> None:
+    """With max_depth set XsdElement.raw_decode does not check the key references of the top-level element at its end: it leaves their
+    counters enabled and relies on the final pass of _validate_references, for every kind of source.  That pass lies on every path
+    through _validate_references (no early return for non-lazy sources)."""
+    rule = 'C20.k'
+    f = ctx.idx.method(SCHEMA, '_validate_references')
+    ctx.analysed(f.qualname)
+    g = cfg_of(ctx, f)
+    loops = [x for x in g.nodes if x.kind == 'for' and text(x.ast.iter).startswith('context.identities')]
+    if len(loops) != 1:
+        raise AnalysisError(f'UNRECOGNISED-IDIOM {rule}: the keyref pass of {f.qualname}')
+    w = g.must_pass(g.entry, [g.exit], loops, kinds='nTF')
+    ok = w is None
+    ctx.ob(rule, '_validate_references: the pass over the key references still enabled lies on every path', f.loc(loops[0].ast), ok,
+           '' if ok else f'the function can end at line {w[-2].lineno if len(w) > 1 else 0} before the pass: a dangling keyref declared on the root element is reported by iter_errors(doc) and lost '
+           'by iter_errors(doc, max_depth=10), although nothing is cut', key='_validate_references|keyref-pass-always')
+    # the producer side of the contract: under a depth limit the top-level element leaves its counters enabled
+    rd = ctx.idx.method('xmlschema.validators.elements.XsdElement', 'raw_decode')
+    src = text(rd.node)
+    relies = 'context.max_depth is None' in src and 'elif context.level:' in ast.unparse(rd.node)
+    ctx.ob(rule, 'XsdElement.raw_decode leaves the counters of the top-level element to the final pass when max_depth is set (the contract relied on)', rd.loc(), relies, '',
+           key='raw_decode|level0-deferred', nontrivial=False)
+    ctx.explain('C20.k: must-pass-through in XMLSchemaBase._validate_references - every path from the entry to the exit goes through the loop over context.identities.')
+
+
+def _char_pred(e: ast.AST, var: str, ch: str):
+    """value of a character predicate (the forms used by the name scanners) for the character ``ch``; None when not evaluable."""
+    if isinstance(e, ast.BoolOp):
+        vs = [_char_pred(v, var, ch) for v in e.values]
+        if any(v is None for v in vs):
+            return None
+        return all(vs) if isinstance(e.op, ast.And) else any(vs)
+    if isinstance(e, ast.UnaryOp) and isinstance(e.op, ast.Not):
+        v = _char_pred(e.operand, var, ch)
+        return None if v is None else not v
+    if isinstance(e, ast.Call) and isinstance(e.func, ast.Attribute) and isinstance(e.func.value, ast.Name) and e.func.value.id == var and not e.args:
+        return {'isalnum': ch.isalnum(), 'isalpha': ch.isalpha(), 'isdigit': ch.isdigit()}.get(e.func.attr)
+    if isinstance(e, ast.Compare):
+        if len(e.ops) == 1 and isinstance(e.left, ast.Name) and e.left.id == var and isinstance(e.comparators[0], ast.Constant) and isinstance(e.comparators[0].value, str):
+            if isinstance(e.ops[0], ast.In):
+                return ch in e.comparators[0].value
+            if isinstance(e.ops[0], ast.Eq):
+                return ch == e.comparators[0].value
+        if len(e.ops) == 2 and all(isinstance(o, ast.LtE) for o in e.ops) and text(e.comparators[0]) == f'ord({var})' \
+                and isinstance(e.left, ast.Constant) and isinstance(e.comparators[1], ast.Constant):
+            return e.left.value <= ord(ch) <= e.comparators[1].value
+    return None
+
+
+def rule_l(ctx: Ctx) -> None:
+    """Every element path can be written: the scanner that splits a path into steps (to add the default namespace / expand prefixes)
+    recognises the whole NCName alphabet - names may start with a letter or '_' and continue with letters, digits, '.', '-', '_'.  A name
+    cut in the middle yields a malformed expression: find(), iter_errors(path=…) and decode(path=…) raise a syntax error."""
+    rule = 'C20.l'
+    mod = ctx.idx.module('xpath.selectors')
+    n = 0
+    for fname, chars, what in (('is_ncname_start', 'aZ_', 'first character of a name'), ('is_ncname_continuation', 'aZ09._-', 'further character of a name')):
+        f = mod.functions.get(fname)
+        if f is None:
+            ctx.ob(rule, f'xpath.selectors.{fname} exists', f'{mod.relpath}:1', False, f'the scanner has no predicate for the {what}', key=f'selectors|{fname}')
+            continue
+        ctx.analysed(f.qualname)
+        rets = [r for r in ast.walk(f.node) if isinstance(r, ast.Return) and r.value is not None]
+        var = f.params[0]
+        for ch in chars:
+            n += 1
+            v = _char_pred(rets[0].value, var, ch) if len(rets) == 1 else None
+            ctx.ob(rule, f'{fname}: {ch!r} is accepted as {what}', f.loc(), v is True,
+                   '' if v is True else ('not evaluable' if v is None else f'{ch!r} is refused: a path step such as my_item is cut after `my` and the rewritten path is malformed - '
+                                          'schema.find("/root/b/my_item", {"": ns}) raises ElementPathSyntaxError'), key=f'selectors|{fname}|{ch}')
+    sp = mod.functions.get('split_path')
+    starts = [c for c in calls(sp.node) if isinstance(c.func, ast.Attribute) and c.func.attr in ('isalpha', 'isalnum') and 'path[' in text(c.func.value)]
+    ctx.ob(rule, 'split_path recognises the start of a name with the name-start predicate', sp.loc(starts[0]) if starts else sp.loc(), not starts,
+           '' if not starts else f'`{text(starts[0])}`: names starting with "_" are not scanned as names', key='split_path|name-start')
+    ctx.floor(rule, 'characters of the NCName alphabet checked', n, 10)
+    ctx.explain('C20.l: the character predicates of xmlschema/xpath/selectors.py are evaluated (over the expression forms str-method / membership in a literal / code-point range) '
+                'for representatives of the NCName alphabet.')
+
+
+RULES = [rule_a, rule_b, rule_c, rule_d, rule_e, rule_f, rule_g, rule_h, rule_i, rule_j, rule_k, rule_l]
